@@ -436,12 +436,14 @@ def driver_main(args):
             try:
                 cp = subprocess.run([PY, "-m", "vlib.core", "replay", pid, "--replay", path],
                                     cwd=ROOT, env=env, capture_output=True, text=True,
-                                    timeout=300 if bucket == "process-hang" else 1800)
+                                    timeout=300 if bucket.startswith("process-") else 1800)
             except subprocess.TimeoutExpired:
-                cp = subprocess.CompletedProcess([], 124 if bucket == "process-hang" else 2, "", "replay timed out")
+                # a worker that hung or was killed (e.g. out of memory after looping): not finishing
+                # alone within 300 s confirms it
+                cp = subprocess.CompletedProcess([], 124 if bucket.startswith("process-") else 2, "", "replay timed out")
             last = (path, cp)
             if cp.returncode == 1 or (cp.returncode < 0 and bucket.startswith("process-crash")) or \
-                    (cp.returncode == 124 and bucket == "process-hang"):
+                    (cp.returncode == 124 and bucket.startswith("process-")):
                 violations.append({"bucket": bucket, "replay": path, "detail": det, "form": kind})
                 confirmed = True
                 break
